@@ -623,6 +623,15 @@ DIRECTED = {
 		f'struct Other{tag}\n\tKIND = make_const(uint32, 100)\n\tinline Entry{tag}\n\tother_value = uint64\n\n'
 		f'struct Holder{tag}\n\tcount = uint8\n\tentries = array(Entry{tag}, count)\n\n'
 		for index, tag in enumerate(['Ash', 'Birch', 'Cedar', 'Elm', 'Fir', 'Hazel', 'Larch', 'Maple', 'Oak', 'Pine'])),
+	# two abstract levels that BOTH declare a discriminator (different name lists): each factory's names are those of the abstract struct itself
+	'nested-factories-with-own-discriminators':
+		'enum Kind : uint16\n\tPLAIN = 1\n\tLEAF = 2\n\n@discriminator(kind)\nabstract struct Outer\n\tkind = Kind\n\n'
+		'@initializes(kind, PLAIN_KIND)\nstruct Plain\n\tPLAIN_KIND = make_const(Kind, PLAIN)\n\tinline Outer\n\tpayload = uint32\n\n'
+		'@discriminator(kind, version)\nabstract struct Middle\n\tinline Outer\n\tversion = uint8\n\n'
+		'@initializes(kind, LEAF_KIND)\n@initializes(version, LEAF_VERSION)\nstruct LeafOne\n\tLEAF_KIND = make_const(Kind, LEAF)\n\t'
+		'LEAF_VERSION = make_const(uint8, 1)\n\tinline Middle\n\tamount = uint64\n\n'
+		'@initializes(kind, LEAF_KIND)\n@initializes(version, LEAF_VERSION)\nstruct LeafTwo\n\tLEAF_KIND = make_const(Kind, LEAF)\n\t'
+		'LEAF_VERSION = make_const(uint8, 2)\n\tinline Middle\n\tamount = uint64\n\tfee = uint64\n',
 	'missing-initializer':
 		'@discriminator(kind, version)\nabstract struct Base\n\tkind = uint8\n\tversion = uint8\n\n@initializes(kind, ONE)\nstruct Derived\n\tinline Base\n',
 }
